@@ -2,6 +2,7 @@
 from .common import *
 from .pxcommon import *
 from . import c08
+from . import c02 as _c02
 from .geomgen import *
 
 ID = "C04"
@@ -65,12 +66,21 @@ def gen_cases(rng, tier):
             pts = [P(rng.random() < 0.7) for _ in range(k - 1)] + [P(rng.random() < 0.4)]
             ops += [k] + [f2b(round(c * 16) / 16) for p in pts for c in p]
         cases.append(("hair_px", [rng.choice([0, 1, 2]), int(aa), width, w, h, 0] + list(IDENT) + ops))
+    # whole fills (the C02 generator: multi-contour paths with open sub-paths, retraced edges, shapes leaving through the
+    # borders, tile seams): a pixel farther than the band from the outline and outside the shape must keep its bytes
+    fills = [c for c in _c02.gen_cases(rng, tier) if c[0] == "fill_px" and c[1][3] <= 200]
+    cases += fills[:450 if tier == "quick" else 6000]
     return cases
 
 
 def oracle(suite, args, out):
     if out.startswith(("PANIC", "CRASH", "HANG")):
         return "implementation did not return: " + out[:200]
+    if suite == "fill_px":
+        o = ints(out)
+        if len(o) >= 7 and o[2] > 0 and o[6] == 0:
+            return "a fill changed %d pixels outside the shape (first (%d,%d), alpha %d): bytes outside the footprint" % (o[2], o[3], o[4], o[5])
+        return None
     if suite == "hair_px":
         o = ints(out)
         if len(o) >= 7 and o[1] > 0:
@@ -95,10 +105,15 @@ def oracle(suite, args, out):
 def relation(suite, args, mo, io):
     if suite == "hair_px":
         return mo.strip() == "-9"
+    if suite == "fill_px":
+        return _c02.relation(suite, args, mo, io)
     return c08.relation(suite, args, mo, io)
 
 
 def nontrivial_tag(suite, args, out):
+    if suite == "fill_px":
+        o = out.split()
+        return "fill" if len(o) >= 3 and o[0].isdigit() and int(o[0]) > 0 else None
     if suite == "hair_px":
         o = out.split()
         return "stroke" if len(o) >= 3 and o[0].isdigit() and int(o[0]) > 0 else None
